@@ -44,6 +44,10 @@ def observe_all(b, dsg):
         out['unconnected'] = tuple(sorted(b.name_of.get(n, '?') for n in dsg.unconnected_connectors))
     except Exception as e:  # noqa
         out['unconnected'] = f'raise {type(e).__name__}'
+    try:
+        out['constraints'] = tuple((c.type.name, tuple(str(n) for n in c.nodes)) for c in dsg.get_choice_constraints())
+    except Exception as e:  # noqa
+        out['constraints'] = f'raise {type(e).__name__}'
     out['dv_values'] = tuple(sorted((b.name_of.get(k, '?'), v) for k, v in dsg.des_var_values.items()))
     out['metric_values'] = tuple(sorted((b.name_of.get(k, '?'), v) for k, v in dsg.metric_values.items()))
     return out
